@@ -360,7 +360,7 @@ static ASMJIT_FAVOR_SIZE Error validate(InstDB::Mode mode, const BaseInst& inst,
           // only usable for string instructions and other instructions where memory operand is implicit and
           // has 'seg:[reg]' form.
           if (base_id < Operand::kVirtIdMin) {
-            if (ASMJIT_UNLIKELY(base_id >= 32)) {
+            if (ASMJIT_UNLIKELY(base_id >= 32 || !Support::bit_test(vd->allowed_reg_mask[size_t(base_type)], base_id))) {
               return make_error(Error::kInvalidPhysId);
             }
 
@@ -440,7 +440,7 @@ static ASMJIT_FAVOR_SIZE Error validate(InstDB::Mode mode, const BaseInst& inst,
 
           uint32_t index_id = m.index_id();
           if (index_id < Operand::kVirtIdMin) {
-            if (ASMJIT_UNLIKELY(index_id >= 32)) {
+            if (ASMJIT_UNLIKELY(index_id >= 32 || !Support::bit_test(vd->allowed_reg_mask[size_t(index_type)], index_id))) {
               return make_error(Error::kInvalidPhysId);
             }
 
@@ -775,6 +775,15 @@ Next:
 
       if (ASMJIT_UNLIKELY(extra_reg.id() == 0 || !common_info.has_avx512_k())) {
         return make_error(Error::kInvalidKMaskUse);
+      }
+
+      if (extra_reg.is_phys_reg()) {
+        if (ASMJIT_UNLIKELY(extra_reg.id() >= 32 || !Support::bit_test(vd->allowed_reg_mask[size_t(RegType::kMask)], extra_reg.id()))) {
+          return make_error(Error::kInvalidPhysId);
+        }
+      }
+      else if (uint32_t(validation_flags & ValidationFlags::kEnableVirtRegs) == 0) {
+        return make_error(Error::kIllegalVirtReg);
       }
     }
     else {
